@@ -256,7 +256,7 @@ PositiveProbes(rt) ==
 Shorter(p) == {SubSeq(p, 1, i - 1) \o SubSeq(p, i + 1, Len(p)) : i \in 1..(Len(p) - 1)} \cup {<<Last(p)>>}
 NegativeProbes(rt) ==
   UNION {UNION {{[q EXCEPT !.path = s, !.tag = -1, !.via = "neg", !.neg = TRUE]
-                   : s \in {x \in Shorter(p) : Expect(rt, [q EXCEPT !.path = x]) = -1 /\ Resolve(rt, x)[2] = "none"}}
+                   : s \in {x \in Shorter(p) : ~Resolve(rt, x)[1] /\ Resolve(rt, x)[2] = "none"}}
                 : q \in {x \in ProbeOf(p, rt.decl[p], "neg") : x.kind # "method"}}
          : p \in {x \in DOMAIN rt.decl : Len(x) >= 2}}
 
